@@ -1,10 +1,113 @@
 (* C04 — handler results, success/failure/exception feedback and error isolation.
-   Only statements here; proofs live in Proofs/FeedbackP.v. *)
+   Only statements here; proofs live in Proofs/FeedbackP.v.  The model (Model/Feedback.v) is the
+   model of the REPAIRED code (fixes/C04_success_after_failure.patch,
+   fixes/C04_generator_raise_finishes.patch).  [reachable s]: s is the state after ANY program
+   (forest of scripted events: any handler shapes, flags, channels, nesting) and ANY sequence of
+   dispatcher / task steps; tick()/run() produce particular such sequences. *)
 From Coq Require Import List ZArith Bool Arith.
 From Circ Require Import Model.Feedback Proofs.FeedbackP.
 Import ListNotations.
+
+(* -- results.  [produced (spec s) e (log s)]: what the handlers of e have produced so far, in
+   production order, read off the handler-activity log (a plain handler's non-None return value, every
+   non-None yield of a generator handler, the error triple PErr for a raise).  At every moment the
+   Value holds exactly what Value.setValue makes of that sequence; `result` says whether there is
+   one; `errors` is set iff some handler has raised. *)
+Theorem C04_value_tracks : forall s e, reachable s -> e < next s ->
+  vv (val s e) = accum (produced (spec s) e (log s)) /\
+  vresult (val s e) = nonempty (produced (spec s) e (log s)) /\
+  verrors (val s e) = (0 <? nraised (spec s) e (log s)).
+Proof. exact value_tracks. Qed.
+Print Assumptions C04_value_tracks.
+
+(* Full statement "value = pack results" (none / the single result / the list of results) is REFUTED
+   on the unchanged and on the repaired code when the first result is itself a list (open finding
+   C04-list-result-merged): *)
+Theorem C04_value_refuted : exists roots ls e,
+  let s := exec ls (start roots) in
+  e < next s /\ phase s e = PFin /\ vv (val s e) <> pack (produced (spec s) e (log s)).
+Proof.
+  exists [Ev 1 true false false false SDefault
+            [HP [] (RRet (PList [PInt 1; PInt 2])); HP [] (RRet (PInt 3))]], [LDisp], 0.
+  vm_compute. repeat split; auto. discriminate.
+Qed.
+Print Assumptions C04_value_refuted.
+
+(* ... and holds under exactly the complement hypothesis *)
+Theorem C04_value : forall s e, reachable s -> e < next s ->
+  (match produced (spec s) e (log s) with x :: _ :: _ => is_list x = false | _ => True end) ->
+  vv (val s e) = pack (produced (spec s) e (log s)).
+Proof. exact value_packed. Qed.
+Print Assumptions C04_value.
 
 Theorem C04_setvalue_pack : forall l,
   (match l with x :: _ :: _ => is_list x = false | _ => True end) -> accum l = pack l.
 Proof. exact accum_pack. Qed.
 Print Assumptions C04_setvalue_pack.
+
+Theorem C04_setvalue_merges : forall l0 y r, accum (PList l0 :: y :: r) = PList (l0 ++ y :: r).
+Proof. exact accum_merged. Qed.
+Print Assumptions C04_setvalue_merges.
+
+(* -- feedback.  [count_der k e (log s)]: number of derived events of kind k fired about e.
+   One `exception` event per raise; one <name>_failure per raise iff failure feedback was requested. *)
+Theorem C04_feedback_counts : forall s e, reachable s -> e < next s ->
+  count_der DExc e (log s) = nraised (spec s) e (log s) /\
+  count_der DFail e (log s) = (if ev_fail (spec s e) then nraised (spec s) e (log s) else 0).
+Proof. exact feedback_counts. Qed.
+Print Assumptions C04_feedback_counts.
+
+(* <name>_success is fired exactly once iff the event has passed the _eventDone gate (all its
+   generator handlers have ended), asked for it, and no handler raised; otherwise never *)
+Theorem C04_success : forall s e, reachable s -> e < next s -> kind s e = KUser ->
+  count_der DSucc e (log s) =
+  (if is_fin (phase s e) && Nat.eqb (nraised (spec s) e (log s)) 0 && ev_succ (spec s e) then 1 else 0).
+Proof. exact success_count. Qed.
+Print Assumptions C04_success.
+
+(* ... and only after every handler step of the event: nothing newer in the log is activity of e *)
+Theorem C04_success_last : forall s e l1 l2, reachable s -> e < next s -> kind s e = KUser ->
+  log s = l1 ++ LFD DSucc e :: l2 -> forall x, In x l1 -> ~ hentry x e.
+Proof. exact success_last. Qed.
+Print Assumptions C04_success_last.
+
+(* -- isolation / progress.  Whatever raised: once queue and task set are empty, every event ever
+   fired (by handlers that raised, by generator steps, feedback events) has been dispatched and has
+   passed the _eventDone gate with waitingHandlers = 0 — no event is lost or left hanging *)
+Theorem C04_progress : forall s, reachable s -> quiet s = true ->
+  forall d, d < next s -> phase s d = PFin /\ waiting s d = 0.
+Proof. exact progress. Qed.
+Print Assumptions C04_progress.
+
+(* the dispatcher pass of ANY user event in ANY state invokes every plain handler of the event and
+   registers every generator handler, whichever of them raise (a raise never ends the handler loop) *)
+Theorem C04_dispatch_isolation : forall s e j h,
+  e < next s -> kind s e = KUser -> nth_error (ev_hs (spec s e)) j = Some h ->
+  match h with
+  | HP _ _ => In (LH e j) (log (dispatch e s))
+  | HG _ _ _ => In {| tev := e; thd := j; tk := 0 |} (tasks (dispatch e s))
+  end.
+Proof. exact dispatch_runs_all. Qed.
+Print Assumptions C04_dispatch_isolation.
+
+(* non-vacuity: a raising handler, a generator that yields twice, a generator that raises late,
+   success + failure requested; ticks stepping the two tasks in both orders *)
+Definition ex_prog : list ev :=
+  [Ev 1 true true true true SOther
+      [HP [Ev 2 true false false false SDefault [HP [] (RRet (PInt 0))]] RRaise;
+       HG [([], PInt 1); ([], PNone); ([], PInt 2)] [] false;
+       HG [([], PInt 5)] [] true;
+       HP [] (RRet (PInt 7))]].
+Definition ex_state : st := run 50 [[]; [(1, 2); (1, 1)]; [(1, 1); (1, 2)]; [(1, 1)]; [(1, 1)]] (start ex_prog).
+
+Example C04_ex_reaches_quiet : quiet ex_state = true /\ next ex_state = 10.
+Proof. vm_compute. auto. Qed.
+Example C04_ex_value :
+  vv (val ex_state 0) = PList [PErr; PInt 7; PInt 5; PInt 1; PErr; PInt 2] /\
+  verrors (val ex_state 0) = true /\ nraised (spec ex_state) 0 (log ex_state) = 2 /\
+  count_der DExc 0 (log ex_state) = 2 /\ count_der DFail 0 (log ex_state) = 2 /\
+  count_der DSucc 0 (log ex_state) = 0 /\ count_der DSucc 1 (log ex_state) = 1.
+Proof. vm_compute. repeat split; reflexivity. Qed.
+Example C04_ex_value_hyp :
+  match produced (spec ex_state) 0 (log ex_state) with x :: _ :: _ => is_list x = false | _ => True end.
+Proof. vm_compute. reflexivity. Qed.
